@@ -129,9 +129,11 @@ impl<'a, 'c> G<'a, 'c> {
         shapes.push("ternary");
         if self.allow_switch { shapes.push("switch"); }
         shapes.push("paren-sigil");
+        shapes.push("realcast");
         let s = shapes[self.ch.pick(shapes.len())];
         let d = depth - 1;
         match s {
+            "realcast" => { self.feat("realcast"); let a = self.expr(true, d); format!("int({a})") },
             "atom" => self.int_atom(),
             "arith" => { self.feat("arith"); let op = tl::ARITH[self.ch.pick(5)]; let a = self.expr(false, d); let b = self.expr(false, d); format!("({a} {op} {b})") },
             "cmp-int" => { self.feat("cmp"); let op = tl::CMPS[self.ch.pick(6)]; let a = self.expr(false, d); let b = self.expr(false, d); format!("({a} {op} {b})") },
@@ -154,9 +156,11 @@ impl<'a, 'c> G<'a, 'c> {
         shapes.push("ternary");
         if self.allow_switch { shapes.push("switch"); }
         shapes.push("paren-sigil");
+        shapes.push("realcast");
         let s = shapes[self.ch.pick(shapes.len())];
         let d = depth - 1;
         match s {
+            "realcast" => { self.feat("realcast"); let a = self.expr(false, d); format!("float({a})") },
             "atom" => self.float_atom(),
             "arith" => { self.feat("arith"); let op = tl::ARITH[self.ch.pick(5)]; let a = self.expr(true, d); let b = self.expr(true, d); format!("({a} {op} {b})") },
             "neg" => { self.feat("neg"); let a = self.expr(true, d); format!("(-({a}))") },
